@@ -519,8 +519,11 @@ def judge(spec, viol, rr):
             if so['kind'] != 'suspend': continue
             rs = rr['ops'][ks]
             for k, o in ops.items():
-                if k == ks or o['obj'] != so['obj'] or o['thread'] != so['thread'] or o['kind'] == 'suspend': continue
+                if k == ks or o['obj'] != so['obj'] or o['kind'] == 'suspend': continue
                 r = rr['ops'][k]
+                if o['thread'] != so['thread']:
+                    if rs['fret'] >= 0 and r['inv'] >= 0 and rs['fret'] < r['inv'] and r['start'] >= 0 and (rs['resumed'] < 0 or r['start'] < rs['resumed']): bad.append('op%d of another thread ran while suspended' % k)
+                    continue
                 if o['idx'] < so['idx'] and rs['fret'] >= 0 and (r['end'] < 0 or rs['fret'] < r['end']): bad.append('suspend resolved before op%d finished' % k)
                 if o['idx'] > so['idx'] and rs['fret'] >= 0 and r['start'] >= 0 and r['start'] >= rs['fret'] and (rs['resumed'] < 0 or r['start'] < rs['resumed']): bad.append('op%d ran while suspended' % k)
                 if o['idx'] > so['idx'] and rs['fret'] >= 0 and r['start'] >= 0 and r['start'] < rs['fret']: bad.append('op%d overtook the suspend' % k)
